@@ -29,6 +29,8 @@ pub struct Session {
     /// mode R pruning sessions: rem_euclid results are only bounded (0 <= r < |p|), the integer quotient is
     /// dropped - an over-approximation, so pruning stays sound; z3 is erratic on the mixed integer/real form
     pub rem_free: bool,
+    /// mode O with + - * / read as the IEEE-754 operations (round to nearest even) instead of uninterpreted functions
+    pub ieee: bool,
     child: Option<Child>,
     stdin: Option<ChildStdin>,
     rx: Option<Receiver<String>>,
@@ -70,6 +72,7 @@ impl Session {
             float_bits,
             abs: false,
             rem_free: false,
+            ieee: false,
             child: None,
             stdin: None,
             rx: None,
@@ -90,6 +93,18 @@ impl Session {
         s.spawn();
         s
     }
+    /// mode O session with bit-precise IEEE-754 arithmetic for + - * / (% / rem_euclid / powi stay uninterpreted)
+    pub fn new_ieee(timeout_ms: u64) -> Session {
+        let mut s = Session::with_solver(Mode::O, timeout_ms, "z3", (11, 53));
+        s.ieee = true;
+        if let Some(mut c) = s.child.take() {
+            let _ = c.kill();
+            let _ = c.wait();
+        }
+        s.base_log.clear();
+        s.spawn();
+        s
+    }
     /// pruning session for mode O using the order abstraction
     pub fn new_abs(timeout_ms: u64) -> Session {
         let mut s = Session::with_solver(Mode::O, timeout_ms, "z3", (11, 53));
@@ -106,8 +121,12 @@ impl Session {
         if self.mode == Mode::O && !self.abs {
             let (e, m) = self.float_bits;
             p += &format!("(define-sort F () (_ FloatingPoint {e} {m}))\n");
-            for f in ["uadd", "usub", "umul", "udiv", "urem", "ureme", "udive", "upow"] {
-                p += &format!("(declare-fun {f} (F F) F)\n");
+            for (f, op) in [("uadd", "fp.add"), ("usub", "fp.sub"), ("umul", "fp.mul"), ("udiv", "fp.div"), ("urem", ""), ("ureme", ""), ("udive", ""), ("upow", "")] {
+                if self.ieee && !op.is_empty() {
+                    p += &format!("(define-fun {f} ((a F) (b F)) F ({op} RNE a b))\n");
+                } else {
+                    p += &format!("(declare-fun {f} (F F) F)\n");
+                }
             }
             p += "(declare-fun utousize (F) Int)\n";
         }
@@ -375,8 +394,10 @@ impl Session {
                     } else {
                         format!("(and (<= {k}.0 {t}) (< {t} {}.0))", k + 1)
                     }
+                } else if *k == 0 {
+                    format!("(and (fp.gt {t} {}) (fp.lt {t} {}))", self.fp_const(-1.0), self.fp_const(1.0))
                 } else {
-                    format!("(= (utousize {t}) {k})")
+                    format!("(and (fp.geq {t} {}) (fp.lt {t} {}))", self.fp_const(*k as f64), self.fp_const((*k + 1) as f64))
                 }
             }
             Cond::ToUsize(t, None) => {
@@ -384,7 +405,7 @@ impl Session {
                 if self.mode == Mode::R {
                     format!("(<= {t} (- 1.0))")
                 } else {
-                    format!("(= (utousize {t}) (- 1))")
+                    format!("(not (and (fp.gt {t} {}) (fp.lt {t} {})))", self.fp_const(-1.0), self.fp_const(18446744073709551616.0))
                 }
             }
             Cond::ToUsizeBig(t, k) => {
@@ -392,7 +413,7 @@ impl Session {
                 if self.mode == Mode::R {
                     format!("(>= {t} {k}.0)")
                 } else {
-                    format!("(>= (utousize {t}) {k})")
+                    format!("(and (fp.geq {t} {}) (fp.lt {t} {}))", self.fp_const(*k as f64), self.fp_const(18446744073709551616.0))
                 }
             }
             Cond::Bool(id) => self.bool_name(ctx, *id),
@@ -517,6 +538,45 @@ impl Session {
             }
             other => (Answer::Unknown(if other.is_empty() { "no answer".into() } else { other.to_string() }), vec![]),
         }
+    }
+    /// an exactly representable f64 constant in the session's float sort
+    fn fp_const(&self, v: f64) -> String {
+        let (e, m) = self.float_bits;
+        if (e, m) == (11, 53) {
+            let b = v.to_bits();
+            format!("(fp #b{} #b{:011b} #b{:052b})", b >> 63, (b >> 52) & 0x7ff, b & ((1u64 << 52) - 1))
+        } else {
+            let b = (v as f32).to_bits();
+            format!("(fp #b{} #b{:08b} #b{:023b})", b >> 31, (b >> 23) & 0xff, b & ((1u32 << 23) - 1))
+        }
+    }
+    /// IEEE refinement of a mode-O query: the same script with + - * / read as the IEEE-754 operations (round to
+    /// nearest even) instead of uninterpreted functions, decided bit-precisely in fresh one-shot processes (z3, then
+    /// cvc5). `unsat` means the abstract answer `sat` was an artefact of the abstraction; `sat` comes with a model
+    /// of real doubles. % / rem_euclid / powi stay uninterpreted (an over-approximation).
+    pub fn ieee_refine(&mut self, asserts: &[String], get: &[String], timeout_ms: u64) -> (Answer, Vec<(String, String)>) {
+        if self.mode != Mode::O || self.abs {
+            return (Answer::Unknown("IEEE refinement applies to mode O only".into()), vec![]);
+        }
+        self.flush_pending();
+        let tail = if get.is_empty() { String::new() } else { format!("(echo \"<<model>>\")\n(get-value ({}))\n", get.join(" ")) };
+        let mut script = format!("{}{}", self.base_log, Self::query_text(asserts, &tail));
+        for (f, op) in [("uadd", "fp.add"), ("usub", "fp.sub"), ("umul", "fp.mul"), ("udiv", "fp.div")] {
+            script = script.replace(&format!("(declare-fun {f} (F F) F)"), &format!("(define-fun {f} ((a F) (b F)) F ({op} RNE a b))"));
+        }
+        let t0 = Instant::now();
+        let mut r = (Answer::Unknown("no solver answered".into()), vec![]);
+        for solver in ["z3", "cvc5"] {
+            self.oneshots += 1;
+            if let Some(l) = one_shot_lines(solver, &script, timeout_ms) {
+                r = Self::parse_answer(&l, !get.is_empty());
+                if !matches!(r.0, Answer::Unknown(_)) {
+                    break;
+                }
+            }
+        }
+        self.solver_time += t0.elapsed();
+        r
     }
     /// a self-contained script for the last query (for samples and for second-opinion solvers)
     pub fn standalone_last(&self) -> String {
